@@ -81,6 +81,23 @@ def rule_OUT(ctx, tier):
                 rr.ok("monitor_chain awaits poll_best_tip to completion (not raced or wrapped)", sample={"rule": "OUT", "poll future consumed by": [shortfn(u[1]) for u in users]})
             else:
                 rr.fail("poll-can-be-cancelled", "the future of `poll_best_tip` is handed to `%s` instead of being awaited directly: a poll that outlasts it is dropped half way — its progress is discarded, no reachability flag is set and the same blocks are delivered again" % (", ".join(sorted({shortfn(u[1]) for u in other})) or "nothing"), where=mc.line_of(pb))
+    # the monitor keys the outage flag on the error KIND (transient = transport); the three block-source adapter methods must
+    # hand on the RPC client's own classification: each delegates to the same-named RpcClient method and builds no error itself
+    fam = {}
+    for bid, ab in P.bodies.items():
+        if bid.startswith("<&teos::bitcoin_cli::BitcoindClient<'_> as lightning_block_sync::BlockSource>::") and "{closure" in bid:
+            fam[bid.split("BlockSource>::")[1].split("::")[0]] = ab
+    if set(fam) != {"get_header", "get_block", "get_best_block"}:
+        rr.anchor_missing("BlockSource impl for &BitcoindClient (get_header, get_block, get_best_block)")
+    for m, ab in sorted(fam.items()):
+        callees = {call_target(t) or "" for bb, t in ab.calls()}
+        delegates = "<lightning_block_sync::rpc::RpcClient as lightning_block_sync::BlockSource>::" + m in callees
+        builds = sorted(c for c in callees if "BlockSourceError" in c and c.split("::")[-1] in ("persistent", "transient"))
+        if delegates and not builds:
+            rr.ok("block source %s: delegates to RpcClient::%s, error kind untouched" % (m, m), nontrivial=False)
+        else:
+            rr.fail("block-source-error-kind:%s" % m, "the block-source adapter `%s` %s: a connection error reaching ChainMonitor::poll_best_tip with the wrong kind is only logged — the outage is never flagged, the API keeps answering and nobody waits" % (
+                m, ("re-labels errors with " + ", ".join(shortfn(c) for c in builds)) if builds else "does not delegate to the RPC client's own method"), where=ab.span)
     h = P.require(CARRIER + "hang_until_bitcoind_reachable")
     if sites_containing(h, "Condvar", "wait"):
         rr.ok("hang_until_bitcoind_reachable waits on the condvar")
